@@ -248,6 +248,31 @@ def positional(snap):
     return out
 
 
+def nameless(snap):
+    """the snapshot with parameter names erased: values by position"""
+    out = {"thetas": [t[1:] for t in snap["thetas"]]}
+    for key in ("etas", "epsilons"):
+        out[key] = [(names, level, [[snap["omegas"].get(x) for x in row] for row in var]) for names, level, var in snap[key]]
+    return out
+
+
+def has_misplaced_default_name(snap):
+    import re
+    for k, t in enumerate(snap["thetas"], 1):
+        if re.fullmatch(r"THETA_\d+", t[0]) and t[0] != f"THETA_{k}":
+            return True
+    for key, rec in (("etas", "OMEGA"), ("epsilons", "SIGMA")):
+        e = 1
+        for names, level, var in snap[key]:
+            n = len(names)
+            for i in range(n):
+                for j in range(i + 1):
+                    if re.fullmatch(rec + r"_\d+_\d+", var[i][j]) and var[i][j] != f"{rec}_{e + i}_{e + j}":
+                        return True
+            e += n
+    return False
+
+
 REFUSALS = (ValueError, NotImplementedError)
 
 
@@ -441,7 +466,11 @@ def run_api_case(case, drv):
             tags.append("k:api-theta-update")
             if isinstance(res, Exception):
                 continue
-            old = c04.py_parse(rec)
+            # the in-memory tree may hold tokens the lexer would classify differently (NUMERIC '-inf'): parse its text
+            rtxt, _ = c04.try_record("$THETA" + str(rec.root))
+            if rtxt is None:
+                continue
+            old = c04.py_parse(rtxt)
             if isinstance(old, tuple) or len(args) != len(old):
                 continue
             facts = [c04.item_facts(nd) for nd in c04.item_nodes(rec)]
@@ -498,6 +527,13 @@ def run_api_case(case, drv):
                         + _excerpt(code1)})
         return {"k": k, "mon": mon, "tags": tags, "nontrivial": True}
     s2 = snapshot(m2)
+    if (domain or s1["thetas"] == s2["thetas"]) and s1 != s2 and positional(s1) != positional(s2) \
+            and nameless(s1) == nameless(s2) and has_misplaced_default_name(s1):
+        # default names at the wrong position also collide with the reader's own default names (OMEGA_6_6 -> OMEGA_6_6_)
+        mon.append({"cls": "default-parameter-name-renumbered",
+                    "what": f"after {applied}: default-form names at other positions; thetas {[t[0] for t in s1['thetas']]} vs "
+                            f"{[t[0] for t in s2['thetas']]}, rv parameters {sorted(s1['omegas'])} vs {sorted(s2['omegas'])}"})
+        return {"k": k, "mon": mon, "tags": tags, "nontrivial": True}
     if (domain or s1["thetas"] == s2["thetas"]) and s1 != s2 and positional(s1) == positional(s2):
         mon.append({"cls": "default-parameter-name-renumbered",
                     "what": f"after {applied}: a parameter named by the default scheme keeps its old number in memory but is read back "
@@ -562,8 +598,11 @@ def classify_api(ctx, s1, s2, what, ed):
         if ctx.get("diag_xn_named") and "init" in ops + ([ed[0]] if ed else []) and what in ("etas", "epsilons", "omegas"):
             return "omega-diag-repeat-split-comment"
     if what == "thetas":
-        if "rmtheta" in ops:
-            return "theta-remove-readback"
+        same_values = s1 is not None and s2 is not None and [t[1:] for t in s1["thetas"]] == [t[1:] for t in s2["thetas"]]
+        if same_values and any(f["inner_comment"] for f in ctx["items0"]):
+            return "theta-inner-comment-edit"
+        if "rmtheta" in ops and same_values:
+            return "theta-remove-comment-kept"
         return "api-theta-readback"
     if what.startswith("unreadable"):
         return "api-code-unreadable:" + "+".join(ops)
